@@ -235,6 +235,25 @@ def rule_listops(ctx, rep):
     pat.require(n >= 8, "list primitives not found (%d)" % n)
 
 
+def rule_leave(ctx, rep):
+    """A thread that leaves (qsbr: unregister goes offline first; memb/mb: its last read_unlock) must release an updater
+    that is waiting for it or about to sleep on it: the sleep/wake handshake of C02 restricted to the instances a departing
+    thread depends on (it will never report again, so a wake-up lost at that moment is lost for good)."""
+    from . import c02
+    n0 = len(rep.results)
+    c02.rule_sb_upd(ctx, rep)
+    c02.rule_sb_rd(ctx, rep)
+    keep = []
+    for r in rep.results[n0:]:
+        if r["instance"].startswith("qsbr.") or "announce" in r["instance"]:
+            r["rule"] = "C15.leave"
+            r["key"] = r["key"].replace("C02.sb-upd", "C15.leave").replace("C02.sb-rd", "C15.leave")
+            keep.append(r)
+    del rep.results[n0:]
+    rep.results += keep
+    pat.require(len(keep) >= 4, "sleep/wake handshake instances vanished")
+
+
 RULES = [
     ("C15.listops", rule_listops),
     ("C15.lockset", rule_lockset),
@@ -244,6 +263,7 @@ RULES = [
     ("C15.key", rule_key),
     ("C15.lists", rule_lists),
     ("C15.sig", lambda c, r: _sig(c, r)),
+    ("C15.leave", rule_leave),
 ]
 
 
